@@ -426,6 +426,9 @@ def stepWritePath (env : Env) (vm : VmCtx) (c : Chunk) (path : List String) (pc 
 
 /-! ### arms that call `interpret` again -/
 
+/-- the state `render_include` builds -/
+def includeState (st : State) : State := State.fresh (Scope.included st.scope)
+
 /-- `Include(name)` (364-384) with `render_include` (969-989): a fresh state chained to the
 includer for reads, a VM for the included template with the same override and depth; what it
 writes goes to the includer's innermost capture buffer or output. -/
@@ -434,12 +437,24 @@ def stepInclude (rec : VmCtx → Chunk → State → RunRes) (env : Env) (vm : V
   match env.template name with
   | none => .err .templateNotFound
   | some tpl =>
-    match rec { vm with template := tpl } tpl.chunk (State.fresh (Scope.included st.scope)) with
+    match rec { vm with template := tpl } tpl.chunk (includeState st) with
     | .done st' => .next (pc + 1) (st.write st'.out)
     | .err e => .err e
     | .panic s => .panic s
     | .unmodelled w => .unmodelled w
     | .outOfFuel => .outOfFuel
+
+/-- The state a block chunk is entered with (573-580): the block is pushed on the block stack and
+becomes the current block; when it is the block `render_block` asked for, its text goes to a
+buffer of its own and the capture buffers are set aside. -/
+def enterBlock (st : State) (name : String) (lineage : List Chunk) : State :=
+  let st1 : State := { st with blocks := (name, lineage, 0) :: st.blocks, currentBlockName := some name }
+  if st.captureBlock == some name then { st1 with captures := [], out := [] } else st1
+
+/-- Back in the caller (582-590): `st2` is what the block chunk left. -/
+def leaveBlock (st st2 : State) (name : String) : State :=
+  let st3 : State := { st2 with currentBlockName := st.currentBlockName, blocks := st2.blocks.tail }
+  if st.captureBlock == some name then { st3 with captures := st.captures, out := st.out, blockBuffer := st2.out } else st3
 
 /-- `RenderBlock(name)` (559-592) -/
 def stepRenderBlock (rec : VmCtx → Chunk → State → RunRes) (vm : VmCtx) (name : String)
@@ -448,15 +463,8 @@ def stepRenderBlock (rec : VmCtx → Chunk → State → RunRes) (vm : VmCtx) (n
   | none => .err .noLineage
   | some [] => .err .noLineage
   | some (first :: more) =>
-    let lineage := first :: more
-    let capturing := st.captureBlock == some name
-    let st1 : State := { st with blocks := (name, lineage, 0) :: st.blocks, currentBlockName := some name }
-    let st1 : State := if capturing then { st1 with captures := [], out := [] } else st1
-    match rec vm first st1 with
-    | .done st2 =>
-      let st3 : State := { st2 with currentBlockName := st.currentBlockName, blocks := st2.blocks.tail }
-      let st3 : State := if capturing then { st3 with captures := st.captures, out := st.out, blockBuffer := st2.out } else st3
-      .next (pc + 1) st3
+    match rec vm first (enterBlock st name (first :: more)) with
+    | .done st2 => .next (pc + 1) (leaveBlock st st2 name)
     | .err e => .err e
     | .panic s => .panic s
     | .unmodelled w => .unmodelled w
@@ -476,7 +484,16 @@ def setLevel (blocks : List (String × List Chunk × Nat)) (pos level : Nat) : O
     some (blocks.modify i (fun e => (e.1, e.2.1, level)))
   else none
 
-/-- `CallFunction("super")` (472-506) after the kwargs were popped (`rest`). -/
+/-- The state the parent block's chunk is entered with by `super()` (494-497). -/
+def enterSuper (st : State) (blocks1 : List (String × List Chunk × Nat)) : State :=
+  { st with blocks := blocks1, captures := [], out := [] }
+
+/-- Back in the calling block (499-506): `st2` is what the parent's chunk left. -/
+def leaveSuper (st st2 : State) (blocks3 : List (String × List Chunk × Nat)) (pc : Nat) : State :=
+  { st2 with captures := st.captures, out := st.out, blocks := blocks3,
+             stack := (.str true st2.out, (pc, pc)) :: st2.stack }
+
+/-- `CallFunction("super")` (472-506) after the kwargs were popped. -/
 def stepSuper (rec : VmCtx → Chunk → State → RunRes) (env : Env) (vm : VmCtx) (c : Chunk)
     (pc : Nat) (st : State) : StepRes :=
   match st.currentBlockName with
@@ -494,13 +511,11 @@ def stepSuper (rec : VmCtx → Chunk → State → RunRes) (env : Env) (vm : VmC
           match setLevel st.blocks pos (level + 1) with
           | none => .panic "interpreter.rs:495 state.blocks[pos]"
           | some blocks1 =>
-            match rec vm blockChunk { st with blocks := blocks1, captures := [], out := [] } with
+            match rec vm blockChunk (enterSuper st blocks1) with
             | .done st2 =>
               match setLevel st2.blocks pos level with
               | none => .panic "interpreter.rs:501 state.blocks[pos]"
-              | some blocks3 =>
-                .next (pc + 1) { st2 with captures := st.captures, out := st.out, blocks := blocks3,
-                                          stack := (.str true st2.out, (pc, pc)) :: st2.stack }
+              | some blocks3 => .next (pc + 1) (leaveSuper st st2 blocks3 pc)
             | .err e => .err e
             | .panic s => .panic s
             | .unmodelled w => .unmodelled w
@@ -532,6 +547,11 @@ def MAX_COMPONENT_RECURSION_DEPTH : Nat := Generated.MAX_COMPONENT_RECURSION_DEP
 
 /-- `Context` from the list `build_context` produces (a later insert of a name replaces). -/
 def ctxOfList (l : List (String × Value)) : Ctx := l.foldl (fun c kv => c.insert kv.1 kv.2) []
+
+/-- `State::new_with_chunk(&context, chunk)` of `render_component`: only the bound arguments are
+visible (no global context, no includer) -/
+def componentState (bound : List (String × Value)) : State :=
+  State.fresh (.mk [] [] none (ctxOfList bound) none)
 
 /-- `self.tera.components.get(name).unwrap_or_else(|| &self.template.components[name])` -/
 def findComponent (env : Env) (vm : VmCtx) (name : String) : Option (Component.Def × Chunk) :=
@@ -567,14 +587,27 @@ def stepComponent (rec : VmCtx → Chunk → State → RunRes) (env : Env) (vm :
           | .ok bound =>
             if vm.depth + 1 > MAX_COMPONENT_RECURSION_DEPTH then .err .recursionLimit
             else
-              match rec { vm with depth := vm.depth + 1 } cchunk
-                  (State.fresh (.mk [] [] none (ctxOfList bound) none)) with
+              match rec { vm with depth := vm.depth + 1 } cchunk (componentState bound) with
               | .done st' => .next (pc + 1) { st with stack := (.str true st'.out, (pc, pc)) :: rest' }
               | .err e => .err e
               | .panic s => .panic s
               | .unmodelled w => .unmodelled w
               | .outOfFuel => .outOfFuel
     | _ => .panic "interpreter.rs:149 to have kwargs"
+
+/-- `PopJumpIfFalse(target)` (597-603) -/
+def stepPopJumpIfFalse (t : Nat) (pc : Nat) (st : State) : StepRes :=
+  match st.stack with
+  | [] => .panic POP_SITE
+  | (v, _) :: rest => if !v.isTruthy then .next t { st with stack := rest } else .next (pc + 1) { st with stack := rest }
+
+/-- `JumpIfFalseOrPop(target)` (604-612, `wantTrue = false`) and `JumpIfTrueOrPop(target)`
+(613-621): peek; jump keeping the value, or pop it -/
+def stepJumpOrPop (wantTrue : Bool) (t : Nat) (pc : Nat) (st : State) : StepRes :=
+  match st.stack with
+  | [] => .panic PEEK_SITE
+  | (v, _) :: rest =>
+    if (if wantTrue then v.isTruthy else !v.isTruthy) then .next t st else .next (pc + 1) { st with stack := rest }
 
 /-! ### the interpreter loop -/
 
@@ -602,18 +635,9 @@ def step (rec : VmCtx → Chunk → State → RunRes) (env : Env) (vm : VmCtx) (
   | .runTest n => stepFilterOrTest env vm c true n pc st
   | .renderBlock n => stepRenderBlock rec vm n pc st
   | .jump t => .next t st
-  | .popJumpIfFalse t =>
-    match st.stack with
-    | [] => .panic POP_SITE
-    | (v, _) :: rest => if !v.isTruthy then .next t { st with stack := rest } else .next (pc + 1) { st with stack := rest }
-  | .jumpIfFalseOrPop t =>
-    match st.stack with
-    | [] => .panic PEEK_SITE
-    | (v, _) :: rest => if !v.isTruthy then .next t st else .next (pc + 1) { st with stack := rest }
-  | .jumpIfTrueOrPop t =>
-    match st.stack with
-    | [] => .panic PEEK_SITE
-    | (v, _) :: rest => if v.isTruthy then .next t st else .next (pc + 1) { st with stack := rest }
+  | .popJumpIfFalse t => stepPopJumpIfFalse t pc st
+  | .jumpIfFalseOrPop t => stepJumpOrPop false t pc st
+  | .jumpIfTrueOrPop t => stepJumpOrPop true t pc st
   | .capture => .next (pc + 1) { st with captures := [] :: st.captures }
   | .endCapture => stepEndCapture pc st
   | .startIterate kv compr => stepStartIterate env vm c kv compr pc st
